@@ -12,6 +12,7 @@ import (
 	"time"
 
 	"github.com/KafScale/platform/internal/verifkit"
+	"github.com/KafScale/platform/pkg/broker"
 	"github.com/KafScale/platform/pkg/cache"
 	"github.com/KafScale/platform/pkg/metadata"
 	"github.com/KafScale/platform/pkg/protocol"
@@ -90,6 +91,9 @@ func TestVerifC41Stress(t *testing.T) {
 		}
 		h := newHandler(store, s3, brokerInfo, discardLogger())
 		h.flushOnAck = ci%3 != 0 // every third repetition runs the buffered (flush-disabled) mode
+		// the S3 health gate (C25's subject) must not answer the fetches of this workload with back-pressure codes
+		// while a quarter of the uploads fail: thresholds that error rates cannot reach
+		h.s3Health = broker.NewS3HealthMonitor(broker.S3HealthConfig{ErrorWarn: 2, ErrorCrit: 3, LatencyWarn: time.Hour, LatencyCrit: 2 * time.Hour})
 		h.autoCreateTopics = false
 		h.logConfig.Buffer = storage.WriteBufferConfig{MaxBatches: 2}
 		h.logConfig.Segment.IndexIntervalMessages = 2
